@@ -879,12 +879,14 @@ def _alarm(signum, frame):
     raise Hang()
 
 
-CASE_TIMEOUT = 60       # seconds; an operator call takes milliseconds
+CASE_TIMEOUT = 40       # seconds of CPU time; an operator call takes milliseconds
 
 
 def run_case_safe(spec):
-    old = signal.signal(signal.SIGALRM, _alarm)
-    signal.alarm(CASE_TIMEOUT)
+    # CPU-time timer (SIGVTALRM): does not interfere with the SIGALRM wall-clock watchdog of common.run_check and
+    # is insensitive to machine load; a non-terminating operator call burns CPU and is interrupted
+    old = signal.signal(signal.SIGVTALRM, _alarm)
+    signal.setitimer(signal.ITIMER_VIRTUAL, CASE_TIMEOUT)
     try:
         r = run_case(spec)
         r['spec'] = spec
@@ -894,8 +896,8 @@ def run_case_safe(spec):
     except Exception as ex:       # the harness could not drive the implementation on this case
         return {'error': '%s: %s\n%s' % (type(ex).__name__, ex, traceback.format_exc()[-1500:]), 'spec': spec}
     finally:
-        signal.alarm(0)
-        signal.signal(signal.SIGALRM, old)
+        signal.setitimer(signal.ITIMER_VIRTUAL, 0)
+        signal.signal(signal.SIGVTALRM, old)
 
 
 # ----------------------------------------------------------------------------------------
